@@ -30,6 +30,7 @@ INFO = {
 }
 
 REPO = os.environ.get('VERIF_REPO', '/repo')
+CONVERSE = os.environ.get('VERIF_C14_CONVERSE') == '1'       # experiment: is every derivable text accepted?
 PH0 = 0xE000                     # private-use code points mark the symbolic positions inside a template
 _G = {}
 
@@ -311,7 +312,7 @@ def _words(template):
     return re.findall(r'[A-Za-z_$][A-Za-z_$0-9./]*', ''.join(ch if ord(ch) < PH0 else ' ' for ch in template))
 
 
-def h_chars(template, k, kind='dt', decl=('a', 'b'), consts=(), again=True, first=None):
+def h_chars(template, k, kind='dt', decl=('a', 'b'), consts=(), again=True, first=None, must_accept=False):
     """template: specification text in which the code points U+E000.. mark k positions holding ARBITRARY characters"""
     consts = [tuple(c) for c in consts]
     cdict = {n: v for n, _, v in consts}
@@ -369,6 +370,11 @@ def h_chars(template, k, kind='dt', decl=('a', 'b'), consts=(), again=True, firs
         env.observe('outcome', [0 if out == 'ok' else (1 if out == 'rej' else 2)])
         res = [('only-RTAMTException-' + (out if out.startswith('other') else 'x'), A.bool(not out.startswith('other'))),
                ('rejected-again-on-second-parse', A.bool(out2 == out))]
+        if must_accept:
+            res.append(('legal-text-accepted', A.bool(out == 'ok')))
+        if out == 'rej' and CONVERSE:
+            ok, toks = G.derivable(data)
+            res.append(('derivable-with-valid-bounds-implies-accepted', A.bool(not (ok and bounds_valid(toks, data, cdict)))))
         if out == 'ok':
             ok, toks = G.derivable(data)
             if refsem.TWIN == 'nospace':              # vacuity twin: an oracle that does not know white space - must be refuted
@@ -514,6 +520,18 @@ def obligations(tier, rng):
                                            ('out = c > 1', 'out = ' + PH + ' + a'), ('out = always[0,K](a)', 'out = always[0,' + PH + '](a)'), ('out = a +', 'out = a ' + PH + ' b'),
                                            ('x = a > 1; out = x.', 'out = x' + PH + ' > 0')]):
         out.append(ob('C14', 'chars', 'reparse/%d/%r then %r' % (fi, first, second.replace(PH, '?')), template=second, k=1, kind='dt', first=first, max_paths=4000, wall=600, validate=1))
+    # the other direction, on a corpus: texts that use every alternative of the grammar once or twice (declarations with and without
+    # initialisers and io annotations, constants, comments, every operator and alias, unit spellings, literals, unnamed assertions that
+    # start with a unary minus) ARE accepted.  Enumeration, no solver: "accepts exactly" cannot be decided for all texts.
+    legal = ['float w = a\n-b > 0.5;', 'float w = a + 1\nout = w > b', 'float w\nout = w > 0', 'input float w\nout = w >= a', 'output float w\nout = w >= a',
+             'const float c = 1.5\nout = a > c', 'const int k = 2\nout = a > k', 'float w = 3\nfloat v = w\nout = v > a', '-a > 0', 'out = -a > -b', 'out = a > b - 1',
+             'p = a > 0; out = p and b > 0', '// c\nout = a > 0', 'out = always[0:2 s](a>0) and eventually[1ms:2ms] (b>0) or (a until[1,2] b)', 'out = a > 0;', 'a > 0',
+             'out = rise(a>0) or fall(b>0)', 'out = prev a > 0 -> next b > 0', 'out = abs(a) + sqrt(b) * exp(a) / pow(a,2) >= 0', 'out = (a>0) iff (b>0) xor (a<b)', 'out = G F (a>0)',
+             'out = a>0 S b>0', 'out = H[0,1](a>0) | O[1:2](b>0)', 'out = not(a>0) & !(b<0)', 'out = a == 0 or b !== 1', 'out = 0x1F > a', 'out = 1e1 > a', 'out = .5 > a',
+             'float c\nfloat d\nout = c > d', 'out = (a > 0) unless[1,2] (b > 0)', 'out = a > 0 W b > 0', 'out = sX a > 0 U sY b > 0', 'out = (a > 0) since[1s:2000ms] (b > 0)']
+    for li, t in enumerate(legal):
+        for kind in ('dt', 'ct'):
+            out.append(ob('C14', 'chars', 'legal/%s/%d/%r' % (kind, li, t), template=t, k=0, kind=kind, validate=0, must_accept=True))
     # concrete endings of every template: exactly one ';' may close an assertion
     for ti, (kind, t, consts) in enumerate(temps):
         base = t[:-1] if t.endswith(';') else t
